@@ -10,6 +10,14 @@ from harness.common import B
 OBJ = {8: 0x5, 16: 0x6, 32: 0x7, 64: 0x1B, 1: 0x1, 24: 0x16, 4: 0x5, 7: 0x2}
 
 
+def obj_type(idx, n):
+    """data type of a mappable object that is mapped with n bits: every fifth wider object is an
+    OCTET_STRING / TIME_OF_DAY / DOMAIN (no fixed width of its own; the mapping entry alone says how many bits)"""
+    if n >= 16 and idx % 5 == 3:
+        return (0xA, 0xC, 0xF)[idx % 3]
+    return OBJ.get(n, 0x7)
+
+
 class StrictDevice:
     def __init__(self, com_idx, map_idx, dev0, log):
         self.com_idx, self.map_idx, self.log = com_idx, map_idx, log
@@ -107,14 +115,14 @@ def build_od(com_idx, map_idx, present, objs):
     for idx, subs in objs.items():
         if list(subs) == [0]:
             v = ODVariable(f"Obj{idx:04X}", idx, 0)
-            v.data_type = OBJ.get(subs[0], 0x7)
+            v.data_type = obj_type(idx, subs[0])
             od.add_object(v)
         else:
             rec = ODRecord(f"Rec{idx:04X}", idx)
             od.add_object(rec)
             for s, n in subs.items():
                 v = ODVariable(f"Rec{idx:04X}m{s}", idx, s)
-                v.data_type = OBJ.get(n, 0x7)
+                v.data_type = obj_type(idx, n)
                 rec.add_member(v)
     return od
 
